@@ -481,7 +481,7 @@ def runConc (g r : String) (ws : List String) : String :=
     match s.toNat? with
     | some n => 1 ≤ n && n ≤ hi && toString n == s
     | none => false
-  if !(count? g 64 && count? r 50) then "bad-op" else
+  if !(count? g 64 && count? r 500) then "bad-op" else
   let qs := ws.drop 1 |>.filter (·.startsWith "q")
   if qs.isEmpty || !(qs.all fun q => concOps.contains (((q.drop 1).toString.splitOn ":").headD "")) then "bad-op" else
   match ws with
